@@ -33,6 +33,8 @@ func AllRules() map[string]*Rule {
 		ruleLeaderExit(),
 		ruleFutResolve(),
 		ruleReplyTerm(),
+		ruleRoundKind(),
+		ruleTermStepdown(),
 	)
 	all = append(all, extraRules()...)
 	for _, r := range all {
@@ -55,7 +57,7 @@ func Properties() map[string]*PropertySpec {
 		},
 		{
 			ID:       "C02",
-			Rules:    []string{"VOTE-GRANT", "TERM-VOTE", "STATE-TRANSITIONS", "COUNT-VOTES", "LEADER-ID", "QUORUM-SHAPE"},
+			Rules:    []string{"VOTE-GRANT", "TERM-VOTE", "STATE-TRANSITIONS", "COUNT-VOTES", "LEADER-ID", "QUORUM-SHAPE", "ROUND-KIND", "TERM-STEPDOWN", "VOTE-REQUESTS"},
 			Thorough: []string{"VOTE-REQUESTS", "STICKY"},
 			Decided: "one vote per term at the grant (term equal, vote free or same candidate, log restriction) and no vote reset without a strict term increase in the same critical section; term/vote persisted (fatal on error) before the mutex is released, before any send and before return; " +
 				"leader entry only inside becomeLeader from Candidate with a quorum of real, non-stale votes counted from current voters on a per-round counter (or as the single voter after a candidacy); requests carry LeaderID = id and Term = currentTerm of a leader",
@@ -99,7 +101,7 @@ func Properties() map[string]*PropertySpec {
 		},
 		{
 			ID:         "C16",
-			Rules:      []string{"STICKY", "STATE-TRANSITIONS", "VOTE-REQUESTS"},
+			Rules:      []string{"STICKY", "STATE-TRANSITIONS", "VOTE-REQUESTS", "ROUND-KIND"},
 			Decided:    "the stickiness gate (valid lease or leader contact within an election timeout) dominates every state change and every grant in the vote handler, for prevotes and real votes; prevotes write nothing; pre-candidacy writes neither term nor vote and only a prevote quorum leads to candidacy; only voters campaign",
 			NotDecided: "durations, 'prompt contact', the timing argument",
 		},
